@@ -36,10 +36,16 @@ type Config struct {
 	Register   string   `json:"register"`    // echo | assign | error
 	// ClientSkipsTLS: the scripted client does not perform the TLS handshake after a tls confirmation (keeps sending cleartext).
 	ClientSkipsTLS bool `json:"client_skips_tls,omitempty"`
+	// TLSVia: how the connection's TLS configuration supplies its certificate: "" (Certificates) | getcert | getconfig
+	TLSVia string `json:"tls_via,omitempty"`
 }
 
 func (c Config) Key() string {
-	return fmt.Sprintf("%s|%s|%s|tls=%v|%s|%s|%s|skip=%v", strings.Join(c.Comp, ","), strings.Join(c.Enc, ","), strings.Join(c.Schemes, ","), c.TLSCapable, c.AuthSource, strings.Join(c.Tape, ","), c.Register, c.ClientSkipsTLS)
+	k := fmt.Sprintf("%s|%s|%s|tls=%v|%s|%s|%s|skip=%v", strings.Join(c.Comp, ","), strings.Join(c.Enc, ","), strings.Join(c.Schemes, ","), c.TLSCapable, c.AuthSource, strings.Join(c.Tape, ","), c.Register, c.ClientSkipsTLS)
+	if c.TLSVia != "" {
+		k += "|via=" + c.TLSVia
+	}
+	return k
 }
 
 // Ev is one recorded event.
@@ -371,11 +377,13 @@ func NewExplorer(cfg Config) (*Explorer, error) {
 	})
 
 	var scfg *lime.ServerConfig
+	viaBuilder := false
 	if cfg.AuthSource == "tape" {
 		scfg = lime.NewServerConfig()
 		scfg.Authenticate = tapeAuth
 	} else {
 		b := lime.NewServerBuilder()
+		var enable map[string]func()
 		if cfg.AuthSource == "builder" {
 			wrap := func(kind string, ok bool, id lime.Identity, secret string) (*lime.AuthenticationResult, error) {
 				enc, comp := sample()
@@ -389,18 +397,57 @@ func NewExplorer(cfg Config) (*Explorer, error) {
 				}
 				return lime.UnknownAuthenticationResult(), nil
 			}
-			b.EnablePlainAuthentication(func(ctx context.Context, id lime.Identity, pwd string) (*lime.AuthenticationResult, error) {
-				return wrap("builder-plain", pwd == GoodPassword, id, pwd)
-			})
-			b.EnableKeyAuthentication(func(ctx context.Context, id lime.Identity, key string) (*lime.AuthenticationResult, error) {
-				return wrap("builder-key", key == GoodKey, id, key)
-			})
-			b.EnableExternalAuthentication(func(ctx context.Context, id lime.Identity, token, issuer string) (*lime.AuthenticationResult, error) {
-				return wrap("builder-external", token == GoodToken, id, token)
-			})
+			enable = map[string]func(){
+				"plain": func() {
+					b.EnablePlainAuthentication(func(ctx context.Context, id lime.Identity, pwd string) (*lime.AuthenticationResult, error) {
+						return wrap("builder-plain", pwd == GoodPassword, id, pwd)
+					})
+				},
+				"key": func() {
+					b.EnableKeyAuthentication(func(ctx context.Context, id lime.Identity, key string) (*lime.AuthenticationResult, error) {
+						return wrap("builder-key", key == GoodKey, id, key)
+					})
+				},
+				"external": func() {
+					b.EnableExternalAuthentication(func(ctx context.Context, id lime.Identity, token, issuer string) (*lime.AuthenticationResult, error) {
+						return wrap("builder-external", token == GoodToken, id, token)
+					})
+				},
+				"guest":     func() { b.EnableGuestAuthentication() },
+				"transport": func() { b.EnableTransportAuthentication() },
+			}
 		}
-		tmp := b.ListenInProcess(rig.NewInProcAddr()).Build() // never started; only its Authenticate closure is used
+		// In "builder" mode the options go through the builder's own methods (in "builder-noauth" the schemes are
+		// offered without their authenticators, which only direct configuration can express).
+		if cfg.AuthSource == "builder" {
+			b.CompressionOptions(toComp(cfg.Comp)...)
+			b.EncryptionOptions(toEnc(cfg.Enc)...)
+			// the builder starts from the default scheme list (transport) and appends what is enabled, in order
+			expected := []string{"transport"}
+			for _, sch := range cfg.Schemes {
+				if f := enable[sch]; f != nil {
+					f()
+				}
+				if !inList(expected, sch) {
+					expected = append(expected, sch)
+				}
+			}
+			cfg.Schemes = expected
+			e.Cfg = cfg
+		}
+		tmp := b.ListenInProcess(rig.NewInProcAddr()).Build() // never started; only its configuration is used
 		scfg = tmp.VerifConfig()
+		viaBuilder = cfg.AuthSource == "builder"
+		// A second, unrelated server built afterwards in the same process (never started) must not change the first
+		// one's configuration.
+		_ = lime.NewServerBuilder().
+			CompressionOptions(lime.SessionCompressionNone).
+			EncryptionOptions(lime.SessionEncryptionNone).
+			EnableExternalAuthentication(func(context.Context, lime.Identity, string, string) (*lime.AuthenticationResult, error) {
+				return lime.UnknownAuthenticationResult(), nil
+			}).
+			EnableGuestAuthentication().
+			ListenInProcess(rig.NewInProcAddr()).Build()
 		inner := scfg.Authenticate
 		scfg.Authenticate = func(ctx context.Context, id lime.Identity, a lime.Authentication) (*lime.AuthenticationResult, error) {
 			res, err := inner(ctx, id, a)
@@ -415,9 +462,11 @@ func NewExplorer(cfg Config) (*Explorer, error) {
 		}
 	}
 	scfg.Node = node
-	scfg.CompOpts = toComp(cfg.Comp)
-	scfg.EncryptOpts = toEnc(cfg.Enc)
-	scfg.SchemeOpts = toSchemes(cfg.Schemes)
+	if !viaBuilder {
+		scfg.CompOpts = toComp(cfg.Comp)
+		scfg.EncryptOpts = toEnc(cfg.Enc)
+		scfg.SchemeOpts = toSchemes(cfg.Schemes)
+	}
 	scfg.Register = register
 	scfg.ChannelBufferSize = 4
 	scfg.Established = func(id string, sc *lime.ServerChannel) {
@@ -518,6 +567,9 @@ func BuildSymbol(sym, id string) (b []byte, action string) {
 		case "plain-bad":
 			m["scheme"] = "plain"
 			m["authentication"] = map[string]interface{}{"password": base64.StdEncoding.EncodeToString([]byte("wrong"))}
+		case "plain-empty":
+			m["scheme"] = "plain"
+			m["authentication"] = map[string]interface{}{}
 		case "plain-notb64":
 			m["scheme"] = "plain"
 			m["authentication"] = map[string]interface{}{"password": "%%%not-base64%%%"}
@@ -574,7 +626,7 @@ func Alphabet() []string {
 	return []string{
 		"new", "new+id",
 		"neg:id:none:none", "neg:id:none:tls", "neg:id:gzip:none", "neg:id:-:tls", "neg:id:none:-", "neg:id:zzz:none", "neg:id:none:zzz", "neg:bad:none:none", "neg:none:none:tls",
-		"auth:id:guest-uuid", "auth:id:guest-nonuuid", "auth:id:plain-good", "auth:id:plain-bad", "auth:id:plain-notb64", "auth:id:key", "auth:id:transport", "auth:id:external",
+		"auth:id:guest-uuid", "auth:id:guest-nonuuid", "auth:id:plain-good", "auth:id:plain-bad", "auth:id:plain-notb64", "auth:id:plain-empty", "auth:id:key", "auth:id:transport", "auth:id:external",
 		"auth:id:noscheme", "auth:id:scheme-only", "auth:id:unknown-scheme", "auth:id:nofrom", "auth:bad:guest-uuid", "auth:none:guest-uuid", "auth:bad:plain-good",
 		"authas:negotiating:plain-good", "authas:established:guest-uuid", "authas:finishing:key",
 		"state:established", "state:finishing", "state:finished", "state:failed",
@@ -597,7 +649,7 @@ func (e *Explorer) Run(script []string) *Trace {
 	ca, cb := faultconn.Pair(faultconn.Options{})
 	tcfg := &lime.TCPConfig{}
 	if e.Cfg.TLSCapable {
-		tcfg.TLSConfig = rig.ServerTLS()
+		tcfg.TLSConfig = rig.ServerTLSVia(e.Cfg.TLSVia)
 	}
 	t := lime.VerifNewTCPTransport(cb, true, tcfg)
 	rs := &runState{trace: tr, transport: t, cut: ca.Cut}
